@@ -695,12 +695,34 @@ Fixpoint run (fuel : nat) (k : kont) (st : sst) : sst * halt :=
 
 End Sem.
 
+(* what the interpreter refuses before running anything: unbalanced WHILE/WEND and references to
+   lines that do not exist (anywhere in the program, executed or not) *)
+Fixpoint stmt_targets (s : stmt) : list expr :=
+  match s with
+  | SGoto _ e | SGosub _ e | SRun _ e => [e]
+  | SRestore _ e => [e]
+  | SOnGoto _ _ l | SOnGosub _ _ l => l
+  | SIf _ _ th el => flat_map stmt_targets th ++ flat_map stmt_targets el
+  | _ => []
+  end.
+Definition target_ok (prog : program_t) (e : expr) : bool :=
+  match e with
+  | ESng _ b => if f32_lt b 0 then true
+                else existsb (fun l => fst l =? Z.to_N (f32_to_Z b)) prog
+  | _ => true
+  end.
+Definition static_ok (prog : program_t) : bool :=
+  (match while_pairs prog with Some _ => true | None => negb (nested_loop_words prog) && false end
+   || nested_loop_words prog)
+  && forallb (fun l => forallb (target_ok prog) (flat_map stmt_targets (snd l))) prog.
+
 (* RUN [n]: CLEAR, then start at the first line (or at line n) *)
 Definition sem_start (tron : bool) (inputs : list str) : sst :=
   mkS vars_empty [] 0 [] tron None 0 None inputs [] [] [].
 
 Definition sem_run (O : oracle) (prog : program_t) (tron : bool) (inputs : list str) (fuel : nat) : sst * halt :=
-  match prog with
-  | [] => (sem_start tron inputs, HEnd)
-  | (n, l) :: _ => run O prog fuel (tag_line n l, n) (sem_start tron inputs)
-  end.
+  if negb (static_ok prog) then (sem_start tron inputs, HUndefined)
+  else match prog with
+       | [] => (sem_start tron inputs, HEnd)
+       | (n, l) :: _ => run O prog fuel (tag_line n l, n) (sem_start tron inputs)
+       end.
